@@ -53,7 +53,7 @@ CONSTANTS
   Depth = {depth}
   GEN = {gen}
   FAMILY = "{family}"
-INVARIANTS ErrIsAtomic AgreeReverse Involution Position WFReverses AgreeExpiry AgreeSegments EndsSwap Emit
+INVARIANTS WFEquiv ErrIsAtomic AgreeReverse Involution Position WFReverses AgreeExpiry AgreeSegments EndsSwap Emit
 """
 
 
@@ -69,6 +69,22 @@ CONSTANTS
   XorAcc <- SymXor
   GEN = {gen}
 INVARIANTS ErrIsAtomic StdAgree EndsSwap ExpiryTotal SetSecondAgree Emit
+"""
+
+
+MDL_TMPL = """SPECIFICATION Spec
+CONSTANTS
+  CHMOD = 64
+  U32CAP = 100000
+  FIXREV = TRUE
+  FIXWRAP = TRUE
+  FIXHOPS = TRUE
+  FIXOHEXP = TRUE
+  FIXOHSEC = TRUE
+  XorAcc <- SymXor
+  MAXLEN = {maxlen}
+  GEN = TRUE
+INVARIANTS ModelErrIsAtomic AcceptedAgrees AcceptedFits Emit
 """
 
 
@@ -124,14 +140,17 @@ def replay_cells(c, binp, cells, tag):
             obs = res.get("obs") or {}
             # vacuity counters are taken from the GENERATED cell (specification side), never from
             # what the code under test answered
-            if cell.get("fam") == "onehop":
-                stats["onehop"] = stats.get("onehop", 0) + 1
+            if cell.get("fam") in ("onehop", "model"):
+                fam = cell["fam"]
+                stats[fam] = stats.get(fam, 0) + 1
+                if fam == "model" and cell.get("mvalid"):
+                    stats["model_accepted"] = stats.get("model_accepted", 0) + 1
+                desc = json.dumps({k: cell[k] for k in ("cd", "ts", "in1", "in2", "e1", "e2")}) if fam == "onehop" else json.dumps(cell["model"])
                 if not res["conf"]:
                     stats["mismatch"] += 1
                     m = res["mis"][0]
-                    c.drift("one-hop cell %s: %s spec %s real %s" % (json.dumps({k: cell[k] for k in ("cd", "ts", "in1", "in2", "e1", "e2")}), m["field"],
-                                                                     json.dumps(m["spec"])[:160], json.dumps(m["real"])[:160]))
-                report_pvs(c, res["pv"], "one-hop", {"kind": "cell", "cell": cell})
+                    c.drift("%s cell %s: %s spec %s real %s" % (fam, desc[:200], m["field"], json.dumps(m["spec"])[:160], json.dumps(m["real"])[:160]))
+                report_pvs(c, res["pv"], fam + " " + desc[:120], {"kind": "cell", "cell": cell})
                 continue
             if cell.get("wf"):
                 stats["wf"] += 1
@@ -215,6 +234,16 @@ def run(c):
         for d in cells:
             d["fam"] = "std"
         all_cells += cells
+    # the model side: owned StandardPath values no byte string decodes to (empty segments, current_hop_field >= 64)
+    r = c.tlc(SD, "MC_PathModel", cfg=cfg(c, "mc_model.cfg", MDL_TMPL.format(maxlen=3 if thorough else 2)), timeout=3000)
+    for inv in r.violated:
+        c.violation("spec:model:%s" % inv, "design-level: invariant %s violated on MC_PathModel; see %s" % (inv, r.out_path), {"tlc_out": r.out_path})
+    mc = c.printed_json(r, "MCELL")
+    if not mc:
+        c.fail_tool("generation run printed no model cells")
+    for d in mc:
+        d["fam"] = "model"
+    all_cells += mc
     # one-hop paths: small decision table
     r = c.tlc(SD, "MC_OneHop", cfg=cfg(c, "mc_onehop.cfg", OH_TMPL.format(fixohexp="TRUE", fixohsec="TRUE", gen="TRUE")), timeout=3000)
     for inv in r.violated:
@@ -248,8 +277,8 @@ def run(c):
 
     # ---- 2b. replay on the real code -------------------------------------------------------------------
     st = replay_cells(c, binp, all_cells, "all")
-    for need in ("wf", "rev_ok", "rev_err"):
-        if st[need] == 0:
+    for need in ("wf", "rev_ok", "rev_err", "model", "model_accepted", "onehop"):
+        if st.get(need, 0) == 0:
             c.fail_tool("vacuous replay: no cell with %s" % need)
     for cls in ("curr_hf-out-of-range", "curr_inf-out-of-range", "zero-length-middle-segment", "no-first-segment", "pointers-in-range"):
         if st["classes"].get(cls, 0) == 0:
